@@ -12,6 +12,7 @@ verus! {
 //@include prelude/command.rs
 //@include prelude/created_frame_abs.rs
 //@include prelude/network.rs
+//@include prelude/timeouts.rs
 
 /// stand-in for crate::SubDevice: only the configured address is read here
 pub struct SubDevice { pub configured_address: u16 }
@@ -186,6 +187,37 @@ impl MainDevice {
     pub fn dc_ref_address(&self) -> (r: Option<u16>) { unimplemented!() }
 }
 
+/// stand-in for `&mut SubDevice` handed out by iter_mut() (R8), and the per-device state request seen through the
+/// abstraction of its contract (proved on the real body in unit pdi_config::request_subdevice_state_nowait)
+pub struct SdMut { pub configured_address: u16 }
+impl SdMut {
+    pub fn configured_address(&self) -> (r: u16) ensures r == self.configured_address { self.configured_address }
+}
+pub struct SdIterMut { pub rest: Ghost<Seq<SubDevice>> }
+impl SdIterMut {
+    #[verifier::external_body]
+    pub fn next(&mut self) -> (r: Option<SdMut>)
+        ensures
+            old(self).rest@.len() == 0 ==> r is None && final(self).rest@ == old(self).rest@,
+            old(self).rest@.len() > 0 ==> r is Some && (r->Some_0).configured_address == old(self).rest@[0].configured_address
+                && final(self).rest@ == old(self).rest@.skip(1),
+    { unimplemented!() }
+}
+/// "the device at `addr` was sent the AL control request for `st` (FPWR 0x0120 to its own station address) and acknowledged it
+///  without raising its error flag"
+pub uninterp spec fn state_requested(addr: u16, st: SubDeviceState) -> bool;
+pub struct SubDeviceRef<'a> { pub maindevice: &'a MainDevice, pub configured_address: u16, pub state: SdMut }
+impl<'a> SubDeviceRef<'a> {
+    #[verifier::external_body]
+    pub fn new(maindevice: &'a MainDevice, configured_address: u16, state: SdMut) -> (r: Self)
+        ensures r.configured_address == configured_address
+    { unimplemented!() }
+    #[verifier::external_body]
+    pub async fn request_subdevice_state_nowait(&self, desired_state: SubDeviceState) -> (r: Result<(), Error>)
+        ensures r is Ok ==> state_requested(self.configured_address, desired_state)
+    { unimplemented!() }
+}
+
 /// the fields of SubDeviceGroup that the cycle reads
 pub struct Grp<const MAX_PDI: usize> { pub read_pdi_len: usize, pub pdi_len: usize, pub start_address: u32, pub subdevices: Vec<SubDevice>, pub pdi: PdiLock<MAX_PDI>, pub dc_conf: HasDc }
 
@@ -196,6 +228,12 @@ impl<const MAX_PDI: usize> Grp<MAX_PDI> {
     #[verifier::external_body]
     pub fn sd_iter(&self) -> (r: SdIter<'_>)
         ensures r.rest@ == self.subdevices@
+    { unimplemented!() }
+
+    /// `self.inner.get_mut().subdevices.iter_mut()`
+    #[verifier::external_body]
+    pub fn sd_iter_mut(&mut self) -> (r: SdIterMut)
+        ensures r.rest@ == old(self).subdevices@, *final(self) == *old(self)
     { unimplemented!() }
 
     /// `SubDeviceGroup::len`
@@ -492,6 +530,52 @@ impl<const MAX_PDI: usize> Grp<MAX_PDI> {
         assert forall|i: int| base <= i < base + got.len() implies ok_dev(#[trigger] self.subdevices@[i], desired_state) by {
             lemma_ok_dev(self.subdevices@[i], desired_state, got[i - base]);
         }
+    }
+@*/
+
+/*@fn file=src/subdevice_group/mod.rs impl="impl<const MAX_SUBDEVICES: usize, const MAX_PDI: usize, R: RawRwLock, S, DC> SubDeviceGroup<MAX_SUBDEVICES, MAX_PDI, R, S, DC>" name=wait_for_state subst="MainDevice<'_>=>MainDevice" timeouts=1 props=C10 attr="#[verifier::loop_isolation(false)] #[verifier::allow_complex_invariants]" __brk0="Result<(), Error>"
+    requires
+        maindevice.pdu_loop.area <= 0x7ff,
+        maindevice.pdu_loop.area >= 14,
+        self.subdevices@.len() <= 0xffff,
+    ensures
+        // success only if, in ONE sweep, every SubDevice of the group reported the requested state
+        r is Ok ==> forall|i: int| 0 <= i < self.subdevices@.len() ==> ok_dev(#[trigger] self.subdevices@[i], desired_state),
+    // the polling loop runs under the state-transition timeout: it ends - with Ok, with the error of an exchange, or with
+    // the timeout error - before the remaining time (a natural number, assumption A-TIME-1) is used up
+@loop 0
+    invariant
+        __dl.active,
+    ensures
+        __brk0 is Ok ==> forall|i: int| 0 <= i < self.subdevices@.len() ==> ok_dev(#[trigger] self.subdevices@[i], desired_state),
+    decreases __dl.left@
+@*/
+
+/*@fragment file=src/subdevice_group/mod.rs impl="impl<const MAX_SUBDEVICES: usize, const MAX_PDI: usize, R: RawRwLock, S, DC> SubDeviceGroup<MAX_SUBDEVICES, MAX_PDI, R, S, DC>" fn=transition_to from="for subdevice in self.inner.get_mut().subdevices.iter_mut()" to="self.wait_for_state(maindevice, desired_state).await?;" name=transition_request_and_wait qual="pub async" sig="&mut self, maindevice: &MainDevice, desired_state: SubDeviceState -> (r: Result<(), Error>)" tail="Ok(())" subst="self.inner.get_mut().subdevices.iter_mut()=>self.sd_iter_mut()" props=C10 attr="#[verifier::loop_isolation(false)]"
+    requires
+        maindevice.pdu_loop.area <= 0x7ff,
+        maindevice.pdu_loop.area >= 14,
+        old(self).subdevices@.len() <= 0xffff,
+    ensures
+        final(self).subdevices@ == old(self).subdevices@,
+        // the new typestate is claimed (Ok) only if the request was written to EVERY member of the group and acknowledged,
+        // and afterwards every member reported the requested state in one sweep
+        r is Ok ==> forall|i: int| 0 <= i < old(self).subdevices@.len() ==>
+            state_requested((#[trigger] old(self).subdevices@[i]).configured_address, desired_state)
+            && ok_dev(old(self).subdevices@[i], desired_state),
+@entry
+    let ghost devs0 = self.subdevices@;
+@loop 0
+    invariant
+        self.subdevices@ == devs0,
+        __it0.rest@.len() <= devs0.len(),
+        __it0.rest@ =~= devs0.skip(devs0.len() - __it0.rest@.len()),
+        forall|i: int| 0 <= i < devs0.len() - __it0.rest@.len() ==> state_requested((#[trigger] devs0[i]).configured_address, desired_state),
+    decreases __it0.rest@.len()
+@loop_start 0
+    proof {
+        let k = devs0.len() - __it0.rest@.len() - 1;
+        assert(devs0.skip(k)[0] == devs0[k]);
     }
 @*/
 
